@@ -1,18 +1,25 @@
 #!/bin/bash
 # Runs every seeded mutant (must be caught by the check named in its file name prefix, or the one given in
 # selftest/expect.txt) and every benign variant (all checks must stay silent). Scratch copies live under /var/tmp.
+# PAR jobs in parallel (default 4).
 cd /verif
-fail=0
-for m in selftest/mutants/*.patch; do
+mut() {
+  m=$1
   id=$(basename "$m" | cut -d- -f1)
   exp=$(grep -s "^$(basename $m .patch) " selftest/expect.txt | cut -d' ' -f2-)
   [ -n "$exp" ] && ids="$exp" || ids="$id"
   out=$(tools/mutant.sh "$m" $ids 2>&1)
-  if echo "$out" | grep -q "CAUGHT"; then echo "ok   $(basename $m) caught by $(echo "$out" | grep CAUGHT | sed 's/CAUGHT by //;s/://' | tr '\n' ' ')"; else echo "MISS $(basename $m): $(echo "$out" | head -2 | tr '\n' ' ')"; fail=1; fi
-done
-ALL="C01 C02 C03 C04 C05 C06 C07 C08 C09 C10 C11 C12 C13 C14 C15 C16 C17 C18 C19 C20"
-for b in selftest/benign/*.patch; do
+  if echo "$out" | grep -q "CAUGHT"; then echo "ok   $(basename $m) caught by $(echo "$out" | grep CAUGHT | sed 's/CAUGHT by //;s/://' | tr '\n' ' ')"; else echo "MISS $(basename $m): $(echo "$out" | head -2 | tr '\n' ' ')"; fi
+}
+ben() {
+  b=$1
+  ALL="C01 C02 C03 C04 C05 C06 C07 C08 C09 C10 C11 C12 C13 C14 C15 C16 C17 C18 C19 C20"
   out=$(tools/mutant.sh "$b" $ALL 2>&1)
-  if echo "$out" | grep -q "CAUGHT"; then echo "FALSE-ALARM $(basename $b): $(echo "$out" | grep -A2 CAUGHT | head -3 | tr '\n' ' ' | cut -c1-300)"; fail=1; else echo "ok   benign $(basename $b) silent on all checks"; fi
-done
-exit $fail
+  if echo "$out" | grep -q "CAUGHT"; then echo "FALSE-ALARM $(basename $b): $(echo "$out" | grep -A2 CAUGHT | head -3 | tr '\n' ' ' | cut -c1-300)"; else echo "ok   benign $(basename $b) silent on all checks"; fi
+}
+export -f mut ben
+T=$(mktemp)
+ls selftest/mutants/*.patch | xargs -P ${PAR:-4} -I{} bash -c 'mut {}' | sort -k2 | tee $T
+ls selftest/benign/*.patch | xargs -P ${PAR:-4} -I{} bash -c 'ben {}' | sort -k2 | tee -a $T
+if grep -q -E "^(MISS|FALSE-ALARM)" $T; then rm -f $T; exit 1; fi
+rm -f $T; exit 0
